@@ -46,7 +46,7 @@ SPECS["C31"] = dict(
                dict(name="c31_rfc1738_unescape_arbitrary", bounds="all NUL-free strings of 0..4 bytes in an exact-size heap buffer", reach=["done"])],
         thorough=[dict(name="c31_uri_roundtrip", bounds="0..4 bytes", reach=["done"]),
                   dict(name="c31_uri_decode_arbitrary", bounds="0..5 bytes", reach=["accepted", "rejected"]),
-                  dict(name="c31_rfc1738_roundtrip", bounds="0..3 bytes", reach=["done"]),
+                  dict(name="c31_rfc1738_roundtrip", bounds="0..2 bytes, 4 flag sets, static buffer reuse after a call with \"\" or any one NUL-free byte", reach=["done"]),
                   dict(name="c31_rfc1738_unescape_arbitrary", bounds="0..5 bytes", reach=["done"])]),
     timeout=dict(quick=300, thorough=1800),
     stubs=["vsnprintf model for %%%02X", "memAllocBuf rounding as mem/old_api.cc"],
@@ -56,7 +56,7 @@ SPECS["C32"] = dict(
     harness="C32_html.cc", units=SBUF + ["src/html/Quoting.cc"],
     entries=dict(
         quick=[dict(name="c32_html_quote", bounds="two consecutive calls (static buffer reuse/growth): first one of {\"\", \"a\", \"<\", \"\\x0b\", \"\\x80\"}, then every NUL-free string of 0..1 bytes", reach=["done"])],
-        thorough=[dict(name="c32_html_quote", bounds="two consecutive calls: first one of the same 5 strings, then every NUL-free string of 0..2 bytes", reach=["done"])]),
+        thorough=[dict(name="c32_html_quote", bounds="as quick, and the second string may continue with one of \"a\", \"<\", \"\\x80\" after its symbolic byte (2-byte strings)", reach=["done"])]),
     timeout=dict(quick=240, thorough=1500),
     stubs=["vsnprintf model for &#%d;"],
     outside="strings longer than the bound",
@@ -71,4 +71,37 @@ SPECS["C52"] = dict(
     timeout=dict(quick=240, thorough=900),
     stubs=[],
     outside="instantiations other than the listed ones; Math::intPercent and friends (floating point)",
+)
+
+SPECS["C50"] = dict(
+    harness="C50_sets.cc", units=TOK,
+    entries=dict(
+        quick=[dict(name="c50_sets", bounds="A = every range [lo, lo+d], lo in 0..255, d in 0..2, built two ways; B a fixed 5-range set touching bytes 0 and 255; union, both differences, complement, double complement, remove; probe byte fully symbolic", reach=["done"], sample_every=37),
+               dict(name="c50_tokenizer", bounds="input of 0..4 fully symbolic bytes; set in {ALPHA, {0,255,'.',DIGIT}, its complement}; prefix/suffix with limit in {0..5, npos}; skipAll, skipOne, skipAllTrailing, skipOneTrailing, token", reach=["done"], sample_every=11)],
+        thorough=[dict(name="c50_sets", bounds="same as quick (already every range position)", reach=["done"], sample_every=37),
+                  dict(name="c50_tokenizer", bounds="input of 0..6 fully symbolic bytes; same sets and operations; limit in {0..7, npos}", reach=["done"], sample_every=31)]),
+    timeout=dict(quick=300, thorough=1800),
+    stubs=["debugs() disabled"],
+    outside="ranges wider than 3 bytes other than the predefined sets; inputs longer than the bound; Tokenizer::int64 (decided under C27) and skip(SBuf)/skipSuffix (string matching, not set semantics)",
+)
+
+SPECS["C41"] = dict(
+    harness="C41_domain.cc", units=TOK + ["src/anyp/Uri.cc", "lib/rfc1738.cc", "lib/util.cc", "lib/Splay.cc"],
+    entries=dict(
+        quick=[dict(name="c41_two_values", bounds="1..2 configured values of 1..2 bytes over {a,b,.} (optional leading dot), host of 1..3 bytes over {a,B,.}; all names well-formed (non-empty labels, single dots, no trailing dot, host without leading dot); both insertion orders are covered because the values are symbolic", reach=["match", "nomatch"], sample_every=13)],
+        thorough=[dict(name="c41_two_long_values", bounds="1..2 values of 1..3 bytes, host of 1..3 bytes; same alphabets and well-formedness", reach=["match", "nomatch"], sample_every=101)]),
+    timeout=dict(quick=300, thorough=1800),
+    stubs=["ConfigParser::strtokFile hands out the harness's values (ConfigParser.cc is not linked)", "libc strcasecmp/tolower/strlen models (C locale)", "debugs() disabled"],
+    outside="longer names and lists; characters other than {a,b,B,.}; malformed names (empty labels, trailing dot, host with leading dot); the mdnHonorWildcards/mdnRejectSubsubDomains flags (not used by ACLDomainData)",
+)
+
+SPECS["C43"] = dict(
+    harness="C43_intrange.cc", units=TOK + ["src/acl/IntRange.cc", "src/Parsing.cc"],
+    o0_units=["src/acl/IntRange.cc", "src/Parsing.cc"], ub=True, ub_files=["acl/IntRange.cc", "Parsing.cc", "base/Range.h"],
+    entries=dict(
+        quick=[dict(name="c43_int_ranges", bounds="1..2 tokens, each 'N' or 'N-M'; N, M decimal numbers with fully symbolic digits of shape D, DDD or 655DD (values 0..999 and 65500..65599, which straddles the 16-bit limit; leading zeros allowed); probe fully symbolic in -1..65536", reach=["accepted", "rejected"], sample_every=3)],
+        thorough=[dict(name="c43_int_ranges", bounds="as quick, plus single-token lists whose numbers have 5 fully symbolic digits (every value 0..99999)", reach=["accepted", "rejected"], sample_every=11)]),
+    timeout=dict(quick=300, thorough=1800),
+    stubs=["ConfigParser::strtokFile hands out the harness's tokens", "self_destruct() throws (the real one exits): the configuration is rejected", "libc strtoll/strchr models", "debugs() disabled"],
+    outside="lists longer than the bound; tokens that are not digits with at most one '-' (rejected by xatoll's trailing-garbage test, not examined here); probes outside -1..65536 (ACLIntRange::match computes i+1 in int)",
 )
